@@ -638,6 +638,59 @@ def enumerate_seq3():
     return out
 
 
+def enumerate_lifetime():
+    """Capture-lifetime families (full patterns, parsed from text): what a capture holds while its own group is
+    still open or is re-entered after backtracking (a backreference to the enclosing group), and which captures
+    an iteration of a quantifier resets (groups inside alternatives and inside look-arounds of the repeated body)."""
+    texts = []
+    quants = ["*", "+", "{2}", "{1,3}", "*?", "+?"]
+    # (X|Y\1Z)W : \1 inside group 1, reached after the group closed once and the continuation failed
+    for X in ("a", "ab", "a?", "b", "a*"):
+        for Y in ("a", "ab", "", "b"):
+            for Z in ("b", "c", "", "a"):
+                for W in ("c", "b", "bc", "$", "a"):
+                    texts.append("(%s|%s\\1%s)%s" % (X, Y, Z, W))
+    for X in ("a", "ab", "a|b"):
+        for Q in quants:
+            for W in ("", "b", "c"):
+                texts.append("(%s\\1)%s%s" % (X, Q, W))
+                texts.append("((%s)\\1\\2)%s%s" % (X, Q, W))
+    # (?:(X)|Y\1)Q W : a capture set by an earlier iteration, read by a later one
+    for X in ("a", "b", "ab"):
+        for Y in ("b", "a", "c", ""):
+            for Q in quants:
+                for W in ("", "c", "$", "\\1"):
+                    texts.append("(?:(%s)|%s\\1)%s%s" % (X, Y, Q, W))
+    # (?:L|N)Q W : a capture inside a look-around of a repeated body
+    looks = ["(?=(a))a", "(?=(a))", "(?!(a))b", "(?<=(a))b", "(?<=(a))", "(?=(a)b)a", "(?=(a|b))[ab]", "(?=(?:(a)|b))[ab]", "(?=(a)?)[ab]", "(?<!(a))b"]
+    for L in looks:
+        for N in ("b", "c", "", "a"):
+            for Q in quants:
+                for W in ("", "c", "\\1"):
+                    texts.append("(?:%s|%s)%s%s" % (L, N, Q, W))
+    for X in ("a", "b"):
+        for Y in ("b", "c", "a"):
+            for Q in quants:
+                texts.append("((?=(%s))%s|%s)%s" % (X, X, Y, Q))
+                texts.append("(?:(?=(%s))%s|(%s))%s" % (X, X, Y, Q))
+                texts.append("(?:((?=(%s))%s)|%s)%s\\2?" % (X, X, Y, Q))
+    out = []
+    seen = set()
+    for t in texts:
+        try:
+            a = parse(t)
+        except PatternSyntaxError:
+            continue
+        if not valid(a):
+            continue
+        src = to_source(a)
+        if src in seen:
+            continue
+        seen.add(src)
+        out.append(a)
+    return out
+
+
 def parse_term(text):
     """Parse one term that may contain a dangling \\1 (the caller renumbers)."""
     p = _Parser(text)
